@@ -98,7 +98,7 @@ def job_estimate(j):
             res['groups'] = [str(g) for g in e.groups]
         res['has'] = [('thermochem' in lib[k]) for k in mapping]
         return res
-    if j.get('se') and len(mapping) and abs(hash(str(sorted(map(str, mapping))))) % 2:
+    if len(mapping) and abs(hash(str(sorted(map(str, mapping))))) % 2:
         # the caller goes on using ITS mapping object (rescales it in place): the estimate was made from the counts as they were
         pristine = dict(mapping)
         for k in list(mapping):
